@@ -1228,6 +1228,14 @@ def explore_c02(ctx, res, replay_ops=None):
         res.dist["tz%s" % ("+" if tz >= 0 else "-") + ("hh" if tz % 3600 == 0 else "hh:mm")] += 1
         if o != want:
             res.violation("oracle", "C02: the BCD timestamp written for %s reads back as %s" % (t[2:], o), [rts.ops[i], "# impl: " + rts.impl[i]])
+    # --- the same charging model across record splits (the 65535-octet guard plugged in): the continuation record is the session's
+    #     record (identity, numbers and all), whatever the request that crossed the limit carried (recber stream)
+    from . import recber as _recber
+    if replay_ops is None:
+        _recber.recber_phase(ctx, res, "C02", n_quick=40, n_thorough=600)
+    elif replay_ops and replay_ops[0].startswith("recber "):
+        _recber.recber_phase(ctx, res, "C02", ops=replay_ops)
+        return
     # --- long histories that cross the 65535-octet record limit (records are split): every container of every accepted
     #     request must still be in the subscriber's records exactly once
     if replay_ops is None or any(o.startswith("cdrsize ") for o in (replay_ops or [])):
